@@ -94,7 +94,11 @@ class SmtPrinter(TreeWalker):
     def walk_lt(self, formula): return self.walk_nary(formula, "<")
     def walk_ite(self, formula): return self.walk_nary(formula, "ite")
     def walk_toreal(self, formula): return self.walk_nary(formula, "to_real")
-    def walk_div(self, formula): return self.walk_nary(formula, "/")
+    def walk_div(self, formula):
+        # In SMT-LIB "/" is the division on Reals, "div" the one on Ints
+        if formula.get_type().is_int_type():
+            return self.walk_nary(formula, "div")
+        return self.walk_nary(formula, "/")
     def walk_pow(self, formula): return self.walk_nary(formula, "pow")
     def walk_bv_and(self, formula): return self.walk_nary(formula, "bvand")
     def walk_bv_or(self, formula): return self.walk_nary(formula, "bvor")
@@ -423,6 +427,9 @@ class SmtDagPrinter(DagWalker):
         return self.walk_nary(formula, args, "to_real")
 
     def walk_div(self, formula: FNode, args: List[str]) -> str:
+        # In SMT-LIB "/" is the division on Reals, "div" the one on Ints
+        if formula.get_type().is_int_type():
+            return self.walk_nary(formula, args, "div")
         return self.walk_nary(formula, args, "/")
 
     def walk_pow(self, formula: FNode, args: List[str]) -> str:
